@@ -5,12 +5,12 @@
 
 use serde_json::json;
 use vcore::{Run, Tier};
-use vindex::engine::{self, CrashOpts, Explore, ExploreOut, HOp, Mode, Start};
-use vindex::tfs::{self, Tfs, TfsCfg, TfsOp};
+use vindex::engine::{self, CrashOpts, Explore, ExploreOut, HOp, Mode};
+use vindex::tfs::{self, Origin, Tfs, TfsCfg, TfsOp};
 
 struct Job {
     bucket: usize,
-    start: Option<usize>,
+    start: Origin,
     alphabet: Vec<HOp<TfsOp>>,
     depth: usize,
     share: f64,
@@ -27,6 +27,9 @@ fn mode() -> Mode<TfsOp> {
             HOp::Do(TfsOp::RemoveOriginal(1)),
             HOp::Do(TfsOp::Purge(vec![2, 3])),
             HOp::Compact,
+            // removal with a text that shares no term with any document: durable only through
+            // the per-bucket document sets the loader rebuilt
+            HOp::Do(TfsOp::RemoveWith(2, 4)),
         ],
         cuts: true,
         err_prefixes: true,
@@ -40,13 +43,7 @@ fn run_job(run: &mut Run, job: &Job, budget_s: f64) -> ExploreOut {
     let cfg = TfsCfg {
         bucket_overload_size: job.bucket,
     };
-    let (start, start_label) = match job.start {
-        None => (Start::Fresh, "fresh".to_string()),
-        Some(i) => {
-            let (name, seed) = tfs::legacy_seeds().swap_remove(i);
-            (Start::Legacy(seed), name.to_string())
-        }
-    };
+    let (start, start_label) = tfs::origin_start(job.start);
     let x = Explore::<Tfs> {
         cfg,
         start,
@@ -56,6 +53,7 @@ fn run_job(run: &mut Run, job: &Job, budget_s: f64) -> ExploreOut {
         dedup: true,
         mode: mode(),
         deep_depth: 0,
+        past_known: true,
     };
     engine::explore(run, "crash", &x, budget_s, budget_s)
 }
@@ -73,17 +71,22 @@ fn main() {
     }
     let full = tfs::alphabet(4, &[0, 1, 2, 3, 4, 5], &[0, 2, 5]);
     let small = tfs::alphabet(3, &[0, 1, 2, 3], &[0, 2]);
+    let focus = tfs::alphabet(3, &[0, 1, 4], &[0, 2, 4]);
+    use Origin::*;
     let jobs: Vec<Job> = match run.tier {
         Tier::Quick => vec![
-            Job { bucket: 32, start: None, alphabet: full.clone(), depth: 2, share: 0.30 },
-            Job { bucket: 32, start: None, alphabet: small.clone(), depth: 3, share: 0.50 },
-            Job { bucket: 32, start: Some(0), alphabet: small.clone(), depth: 2, share: 0.15 },
+            Job { bucket: 32, start: Fresh, alphabet: full.clone(), depth: 2, share: 0.30 },
+            Job { bucket: 32, start: Fresh, alphabet: small.clone(), depth: 3, share: 0.50 },
+            Job { bucket: 32, start: Legacy(0), alphabet: small.clone(), depth: 2, share: 0.15 },
+            Job { bucket: 40, start: Prelude(0), alphabet: focus.clone(), depth: 2, share: 0.15 },
         ],
         Tier::Thorough => vec![
-            Job { bucket: 32, start: None, alphabet: full.clone(), depth: 7, share: 0.50 },
-            Job { bucket: 20, start: None, alphabet: full.clone(), depth: 7, share: 0.20 },
-            Job { bucket: 512 * 1024, start: None, alphabet: full.clone(), depth: 7, share: 0.10 },
-            Job { bucket: 32, start: Some(0), alphabet: full.clone(), depth: 4, share: 0.15 },
+            Job { bucket: 32, start: Fresh, alphabet: full.clone(), depth: 7, share: 0.40 },
+            Job { bucket: 20, start: Fresh, alphabet: full.clone(), depth: 7, share: 0.15 },
+            Job { bucket: 512 * 1024, start: Fresh, alphabet: full.clone(), depth: 7, share: 0.10 },
+            Job { bucket: 32, start: Legacy(0), alphabet: full.clone(), depth: 4, share: 0.10 },
+            Job { bucket: 40, start: Prelude(0), alphabet: full.clone(), depth: 5, share: 0.10 },
+            Job { bucket: 64, start: Prelude(3), alphabet: full.clone(), depth: 5, share: 0.10 },
         ],
     };
     let total = run.budget_s * 0.95;
@@ -112,7 +115,10 @@ fn main() {
          without the commit, commit + every subset of the deletions; each is loaded with load_all and must answer the light \
          battery (counters, every term, 6 boolean shapes) as the last committed model or as the interrupted flush's \
          model (whole); from each distinct crash state 5 follow-up ops (insert new id, re-insert id 1, remove, purge_ids, compact) \
-         each followed by flush + load + battery. Every write position is also failed once: flush must return Err, live index \
+         each followed by flush + load + battery; a sixth follow-up removes document 2 with a text that shares no term with any document. \
+         Additional start state: three documents over >= 2 buckets (bucket_overload_size 40), depth 2; histories that fail with the \
+         recorded finding C11/stale-posting-of-reinserted-id are kept and checked against the reference adjusted by exactly that \
+         finding (see hist). Every write position is also failed once: flush must return Err, live index \
          unchanged, durable state = last commit or the failed flush in full, a retried flush persists the state. \
          Mutation during a flush (histories to depth 2 quick / 3 thorough): at every write position one mutation from a small set is \
          applied from INSIDE the flush write closure (the flush is suspended in its I/O); the disturbed flush must commit the \
